@@ -647,6 +647,26 @@ pub fn darray_group_specs(cfg: &Cfg) -> Vec<GroupSpec> {
             }
         }
     }
+    // dense blocks whose last sub-block starts next to the 16-bit offset limit (65535 - 32 = 65503 is the largest
+    // possible start), with a hole inside it; followed by nothing, a sparse block, a dense block, a partial block
+    for (j, tail_at) in [65503usize, 65502, 65501, 65495, 65472, 65471, 32768, 60000].into_iter().enumerate() {
+        let lt = Group::LateTail { count: 1024, tail_at, hole: 1 + (j * 7) % 31 };
+        for follow in [None, Some(sparse), Some(dense), Some(partial_sparse), Some(t_eq)] {
+            if cfg.scale != Scale::Full && j > 2 && follow.is_some() {
+                continue;
+            }
+            let mut g = vec![lt];
+            if let Some(f) = follow {
+                g.push(f);
+            }
+            push(g, &mut rng);
+            if j < 3 {
+                if let Some(f) = follow {
+                    push(vec![f, lt, f], &mut rng);
+                }
+            }
+        }
+    }
     // single groups and partial-only inputs
     for g in [dense, sparse, t_lo, t_eq, t_hi, partial, partial_head, partial_sparse, partial_head_eq, partial_head_eq2, partial_head_hi] {
         push(vec![g], &mut rng);
